@@ -732,15 +732,19 @@ TARGETS = (1, 2, 4, 16)
 CROPMODES = ('none', 'aligned', 'left', 'top', 'right', 'bottom', 'all', 'thinw', 'thinh', 'dot', 'over', 'random')
 
 
-def _case(key, route, frames, st, png, **extra):
-    c = {'key': key, 'route': route, 'frames': frames, 'obs': project(png)}
+def _vkey(key, tag):
+    return ':'.join(key.split(':')[:2]) + ('+' + tag if tag else '')
+
+
+def _case(key, route, frames, st, png, tag='', **extra):
+    c = {'key': key, 'vkey': _vkey(key, tag), 'route': route, 'frames': frames, 'obs': project(png)}
     c.update(st)
     c.update(extra)
     return c
 
 
-def _exc(key, route, frames, st, e, **extra):
-    c = {'key': key, 'route': route, 'frames': frames, 'obs': project(b''), 'exc': '%s: %s' % (type(e).__name__, e),
+def _exc(key, route, frames, st, e, tag='', **extra):
+    c = {'key': key, 'vkey': _vkey(key, tag), 'route': route, 'frames': frames, 'obs': project(b''), 'exc': '%s: %s' % (type(e).__name__, e),
          'exctype': getattr(e, 'tname', type(e).__name__)}
     c.update(st)
     c.update(extra)
@@ -848,9 +852,9 @@ def drive_api(g, plans, stats):
             gkey = key + ':generic-for-' + '+'.join(sorted(spec))
             try:
                 png2, _ = run_api(case, generic=True, share=share, lazy=lazy)
-                cases.append(_case(gkey, 'api-generic', frames, st, png2, enc=['bd_any'], twin=len(cases) - 1))
+                cases.append(_case(gkey, 'api-generic', frames, st, png2, tag='generic', enc=['bd_any'], twin=len(cases) - 1))
             except Exception as e:
-                cases.append(_exc(gkey, 'api-generic', frames, st, e, enc=[]))
+                cases.append(_exc(gkey, 'api-generic', frames, st, e, tag='generic', enc=[]))
             for u in spec:
                 stats['generic_twin'][u] = stats['generic_twin'].get(u, 0) + 1
     return cases
@@ -876,13 +880,13 @@ def drive_macros(g, wd, wi, n_batches, per_batch, stats):
                 st = g.settings([f], anim)
                 st['pngalpha'] = pngalpha
                 m = macro_udg(r, mem, f, st, fname)
-                planned.append(('udg', fname, [f], st, m))
+                planned.append(('udg', fname, [f], st, m, ''))
             elif kind == 'udgarray':
                 f = g.frame(r.choice((0, 0, 1, 2, 4, 16)))
                 st = g.settings([f], anim)
                 st['pngalpha'] = pngalpha
                 m = macro_udgarray(r, mem, f, st, fname)
-                planned.append(('udgarray', fname, [f], st, m))
+                planned.append(('udgarray', fname, [f], st, m, ''))
             elif kind == 'font':
                 sc = r.choice(g.scales[:4])
                 f = g.frame(r.choice((1, 2)), False, None, 2, (1, r.randint(1, max(1, min(6, 8 // sc)))), sc, geo=False, mtypes=(0,))
@@ -891,7 +895,7 @@ def drive_macros(g, wd, wi, n_batches, per_batch, stats):
                 st = g.settings([f], anim)
                 st['pngalpha'] = pngalpha
                 m = macro_font(r, mem, f, st, fname)
-                planned.append(('font', fname, [f], st, m))
+                planned.append(('font', fname, [f], st, m, ''))
             elif kind == 'scr':
                 if scr_used:
                     continue            # one screen region per batch (regions would overwrite each other)
@@ -903,7 +907,7 @@ def drive_macros(g, wd, wi, n_batches, per_batch, stats):
                 st = g.settings([f], anim)
                 st['pngalpha'] = pngalpha
                 m = macro_scr(r, mem, f, st, fname)
-                planned.append(('scr', fname, [f], st, m))
+                planned.append(('scr', fname, [f], st, m, ''))
             else:
                 nf = r.choice((2, 3))
                 f1 = g.frame(r.choice((0, 2, 4)), None, r.choice(('none', 'all')), 2, (r.randint(1, 2), r.randint(2, 3)), r.choice((1, 2)))
@@ -925,19 +929,23 @@ def drive_macros(g, wd, wi, n_batches, per_batch, stats):
                 ms = []
                 specs = []
                 delay = 32
+                tag = ''
                 for j, f in enumerate(fs):
                     fst = st if j == 0 else dict(st, tindex=(st['tindex'] + 3) % 16, alpha=(st['alpha'] + 9) % 256)
                     ms.append(macro_udgarray(r, mem, f, fst, '*%sf%d' % (fname, j)))
                     d = r.choice((1, 32, 50, 255, 256, 1000, 65535))
-                    if j > 0 and r.random() < 0.3 and f['xo'] == 0 and f['yo'] == 0:
-                        specs.append('%sf%d' % (fname, j))           # delay carried over from the previous frame
+                    if j > 0 and r.random() < 0.3 and not (f['xo'] or f['yo'] or fs[j - 1]['xo'] or fs[j - 1]['yo']):
+                        # bare frame name: the delay is carried over from the previous frame.  Only used after a frame
+                        # at (0,0): the parser also carries x,y over (documentation: default (0,0)) - a macro-parameter
+                        # question outside C15, so the generator stays where both readings agree.
+                        specs.append('%sf%d' % (fname, j))
                     else:
                         delay = d
                         specs.append('%sf%d,%d,%d,%d' % (fname, j, delay, f['xo'], f['yo']) if (f['xo'] or f['yo'] or r.random() < 0.5)
                                      else '%sf%d,%d' % (fname, j, delay))
                     f['delay'] = delay
                 m = ' '.join(ms) + ' #FRAMES(%s)(%s)' % (';'.join(specs), fname)
-                planned.append(('frames', fname, fs, st, m))
+                planned.append(('frames', fname, fs, st, m, tag))
         imgdir, log_tail = run_skool2html(wd, name, mem, [p[4] for p in planned], 1 if anim else 0, pngalpha)
         results = {}
         if imgdir is None:
@@ -947,20 +955,20 @@ def drive_macros(g, wd, wi, n_batches, per_batch, stats):
                         for k, p in enumerate(planned)]
                 for p, fu in zip(planned, futs):
                     results[p[1]] = fu.result()
-        for kind, fname, fs, st, m in planned:
+        for kind, fname, fs, st, m, tag in planned:
             key = 'macro:%s:%s%s' % (kind, _fkey(fs[0]), ':seq%d' % len(fs) if len(fs) > 1 else '')
             st = dict(st, anim=1 if anim else 0)
             idir, tail = results.get(fname, (imgdir, log_tail))
             path = os.path.join(idir, fname + '.png') if idir else None
             if path and os.path.isfile(path):
                 with open(path, 'rb') as fh:
-                    cases.append(_case(key, 'skool2html', fs, st, fh.read(), macro=m, enc=[]))
+                    cases.append(_case(key, 'skool2html', fs, st, fh.read(), tag=tag, macro=m, enc=[]))
             else:
                 e = RuntimeError('no image written: ' + tail[-600:])
                 last = [ln for ln in tail.splitlines() if ln.strip()][-1:] or ['']
                 mt = re.match(r'([A-Za-z_][\w.]*): ', last[0])
                 e.tname = mt.group(1) if mt else 'NoImage'
-                cases.append(_exc(key, 'skool2html', fs, st, e, macro=m, enc=[]))
+                cases.append(_exc(key, 'skool2html', fs, st, e, tag=tag, macro=m, enc=[]))
             stats['macro'][kind] = stats['macro'].get(kind, 0) + 1
     return cases
 
